@@ -1,7 +1,7 @@
 """C18 — dictionary training yields a usable dictionary or an error, never a bad one."""
 RULE = ('8 entry points (fastCover, trainFromBuffer, cover, optimizeCover, optimizeFastCover, legacy, finalizeDictionary, addEntropyTablesFromBuffer) x every case within D deviations of the base '
         '(11 samples of 1000 bytes with a shared motif, capacity 16 KiB, k=64 d=8 f=12 accel=1 steps=4 split=0.75, 1 thread, level 3) over: sample count {0,1,2,5,11,40}, sample size '
-        '{0,1,7,8,9,64,1000}, content {motif+noise, one symbol, two symbols, identical samples}, varying sizes, capacity {0,7,8,255,256,1 KiB,16 KiB,110 KiB}, k {0,1,64,5e6}, d {0,5,6,8,16}, '
+        '{0,1,7,8,9,64,1000}, content {motif+noise, one symbol, two symbols, identical samples}, size profile {equal, varying, training part (first 75 %) totalling 7 bytes, totalling 3 bytes}, capacity {0,7,8,255,256,1 KiB,16 KiB,110 KiB}, k {0,1,64,5e6}, d {0,5,6,8,16}, '
         'f {0,1,12,31,32}, accel {0,1,10,11}, steps, splitPoint {0,0.01,0.75,1,1.5}, shrinkDict, threads {0,1,2}, level {-5,3,19}, forced ID; the threaded optimisers run their real pool and '
         'best-dictionary mutex/condition under the deterministic scheduler (thorough: every schedule with <= 1 preemption); oracles: error/0 or size <= capacity with the bytes beyond '
         'untouched, loads as CDict and DDict, four ID queries equal and non-zero, every sample round-trips, two single-threaded runs identical; ASan/UBSan; '
